@@ -286,7 +286,8 @@ claim(
     "complement apply the member operator of the same meaning, that StridedInterval.__hash__ covers every "
     "value-determining field copy() carries, the bottom flag included (members live in a Python set and == is always "
     "truthy), and that value-set order comparisons "
-    "answer Maybe with != the complement of == and per-region arithmetic applied to every region.",
+    "answer Maybe with != the complement of == and per-region arithmetic applied to every region, and that where "
+    "per-region offsets of two value-sets meet they are taken under one region key, never by position in the maps.",
     "Not decided: per-member numerics (inherited from C21), collapse/normalisation. " + GENERIC_NOTE,
 )
 claim(
@@ -308,7 +309,7 @@ claim(
     "balancer's own unsat error, and that every balance rewrite f(x) OP c -> x OP g(c) is returned only under an "
     "operator restriction for which it is an implication or under a VSA range fact about the bits it discards - "
     "which carries unsigned comparisons and (in)equalities over, a signed one only as its unsigned counterpart "
-    "where both sides agree on their high bits - and that no rebuilt bound is shifted arithmetically. Also: the Extract arm pads the constant to the operand's full width or does not fire; the shift arm needs facts about both the shifted-out bits and the constant's low bits.",
+    "where both sides agree on their high bits - and that no rebuilt bound is shifted arithmetically. Also: the Extract arm pads the constant to the operand's full width or does not fire; the shift arm needs facts about both the shifted-out bits and the constant's low bits; a guard that is a disjunction is a case split (the rewrite is justified in every arm), and how many values a query listed is not a fact about them.",
     "Not decided: the numeric content of the range facts and of g; the add/sub arms are known findings (no wrap "
     "condition). "
     + GENERIC_NOTE,
